@@ -235,6 +235,10 @@ def run(ctx: Ctx):
         ctx.fail(cons, hc.loc(), f"a CLOSING connection whose buffer has drained is not closed at "
                  f"the {sorted(missing)} site(s): after the DPA the connection lingers until the "
                  f"wait timeout")
+    # the interrupt site only sees the wake-ups that are actually taken from the pipe
+    from .common_node import wakeup_tokens_all_handled
+    wakeup_tokens_all_handled(ctx, "C18-R3b")
+    ctx.cur("C18-R3")
     # stop branch
     cons = "_handle_connections:stop-branch"
     ctx.inst(cons)
